@@ -43,7 +43,7 @@ impl Property for C08 {
     fn id(&self) -> &'static str { "C08" }
     fn level(&self) -> &'static str { "exploration" }
     fn rule(&self) -> &'static str {
-        "one node + witness; <= 30 events: local writes (SET/APPEND/INCR/DEL/HSET/HDEL on 3 keys), remote deltas from replica 2 with stamps 1..10^6 ahead, flush of the delta sink into a segment, checkpoint installation (snapshot + compact_segments), gossip to the witness, crash at any event followed by recovery from whatever is durable (checkpoint only / segments only / WAL only / mixes; WAL on or off per run). After every acknowledged local write its stamp must exceed every stamp of that key the node held just before and every stamp the node ever issued for it; at the end the witness (merging everything ever emitted) must serve the node's last write of every key that no remote delta superseded. Non-trivial = a write to a key after a recovery that restored that key; distinct = event list"
+        "one node + witness; <= 30 events: local writes (SET/APPEND/INCR/DEL/HSET/HDEL on 3 keys, now and then FLUSHALL/FLUSHDB), remote deltas from replica 2 with stamps 1..10^6 ahead, flush of the delta sink into a segment, checkpoint installation (snapshot + compact_segments), gossip to the witness, crash at any event followed by recovery from whatever is durable (checkpoint only / segments only / WAL only / mixes; WAL on or off per run). After every acknowledged local write its stamp must exceed every stamp of that key the node held just before and every stamp the node ever issued for it; at the end the witness (merging everything ever emitted) must serve the node's last write of every key that no remote delta superseded. Non-trivial = a write to a key after a recovery that restored that key; distinct = event list"
     }
     fn components_real(&self) -> Vec<&'static str> { vec!["production::ReplicatedShardedState::{execute,apply_recovered_state,apply_remote_deltas,snapshot_state,set_wal_handle,set_delta_sink}", "ReplicatedShardActor (ApplyRecoveredState, ApplyRemoteDelta, record_mutation_post_execute), ShardReplicaState lamport clocks", "streaming::{StreamingPersistence,CheckpointManager,ManifestManager,RecoveryManager}, delta_sink channel", "streaming::wal_actor (Always policy) + WalRotator::recover_all_entries"] }
     fn components_stubbed(&self) -> Vec<&'static str> { vec!["server_persistent main(): recovery and worker wiring restated (integration.recover -> apply_recovered_state; WAL replay of all entries; delta sink drained into StreamingPersistence at flush events instead of by the timer-driven worker)", "ObjectStore -> SimStore, WalStore -> SimWalStore; gossip transport -> direct hand-over of serialized messages"] }
@@ -69,6 +69,7 @@ impl Property for C08 {
                 10 | 11 => Ev::Flush,
                 12 => Ev::Checkpoint,
                 13 => Ev::GossipToWitness,
+                16 if s.chance(1, 2) => Ev::Write(vec![b(if s.chance(1, 2) { "FLUSHALL" } else { "FLUSHDB" })]),
                 _ => Ev::Crash,
             }
         });
@@ -128,7 +129,10 @@ impl Property for C08 {
                     let ev = evs[idx].clone(); idx += 1;
                     match ev {
                         Ev::Write(c) => {
-                            let key = String::from_utf8_lossy(&c[1]).into_owned();
+                            let key = c.get(1).map(|k| String::from_utf8_lossy(k).into_owned()).unwrap_or_default();
+                            // FLUSHALL/FLUSHDB is not replicated: what the node acknowledged before it is no longer what it
+                            // claims to hold, so the end-to-end comparison with the witness starts afresh (stamps still only grow)
+                            if c.len() == 1 { o.probes.push("flush_all_then_more_writes"); last_write.clear(); }
                             let before = node.snapshot().await;
                             let seen: Vec<LamportClock> = before.get(&key).map(stamps_of).unwrap_or_default();
                             let r = node.exec(&c).await;
